@@ -65,6 +65,7 @@ class Gen:
             if f.kind == 'inline':
                 q = prefix + '.' + f.name
                 self.qual[f.name] = q
+                f._jq = q           # inline objects of one name may be declared in several packets: the class is nested in ITS owner
                 self.collect_inline(q, f.fields)
 
     def newtmp(self):
@@ -96,7 +97,7 @@ class Gen:
         if k == 'ref':
             return self.qual[f.packet]
         if k == 'inline':
-            return self.qual[f.name]
+            return f._jq
         return 'com.finproto.codec.BinaryCodec'
 
     def value(self, f, e, v):
@@ -119,7 +120,8 @@ class Gen:
             else:
                 tn, fl, body = v[0], self.p.packet(v[0]).fields, v[1]
             t = self.newtmp()
-            self.L.append('        %s %s = new %s();' % (self.qual[tn], t, self.qual[tn]))
+            qn = f._jq if k == 'inline' else self.qual[tn]
+            self.L.append('        %s %s = new %s();' % (qn, t, qn))
             self.build_fields(t, fl, body)
             return t
         raise ValueError(k)
@@ -128,12 +130,14 @@ class Gen:
         L = self.L
         done = set()
 
-        def dump_fields(tname, fields):
+        def dump_fields(tname, fields, qn=None):
+            qn = qn or self.qual[tname]
+            tname = qn.replace('.', '__')
             if tname in done:
                 return
             done.add(tname)
             subs = []
-            L.append('    static String dump_%s(%s o) {' % (tname, self.qual[tname]))
+            L.append('    static String dump_%s(%s o) {' % (tname, qn))
             L.append('        if (o == null) return "null";')
             L.append('        StringBuilder sb = new StringBuilder("{");')
             for f in fields:
@@ -148,8 +152,8 @@ class Gen:
                 L.append('        sb.append(";");')
             L.append('        return sb.append("}").toString();')
             L.append('    }')
-            for nm, fl in subs:
-                dump_fields(nm, fl)
+            for nm, fl, q in subs:
+                dump_fields(nm, fl, q)
         for pk in self.p.packets:
             dump_fields(pk.name, pk.fields)
         L.append('    static String dump_dyn(com.finproto.codec.BinaryCodec o) {')
@@ -174,8 +178,8 @@ class Gen:
         if k == 'ref':
             return 'dump_%s(%s)' % (f.packet, acc)
         if k == 'inline':
-            subs.append((f.name, e.fields))
-            return 'dump_%s(%s)' % (f.name, acc)
+            subs.append((f.name, e.fields, f._jq))
+            return 'dump_%s(%s)' % (f._jq.replace('.', '__'), acc)
         if k == 'match':
             return 'dump_dyn(%s)' % acc
         raise ValueError(k)
@@ -236,6 +240,28 @@ MAIN = r'''
                 }
                 for (String[] c : vrt.Trace.CKIN) out.println("CKIN " + i + " " + c[0] + " " + c[1]);
                 for (String p : vrt.Trace.PATCHES) out.println("PATCH " + i + " " + p);
+            } else if (parts[0].equals("A")) {
+                // a connection buffer in use: two copies of message 0 are written, the first is decoded (consumed), then message i is appended
+                int i = Integer.parseInt(parts[1]);
+                out.println("BEGIN A " + i); out.flush();
+                try {
+                    ByteBuf buf = Unpooled.buffer();
+                    boolean ready = false;
+                    try {
+                        build(0).encode(buf); build(0).encode(buf);
+                        new @ROOT@().decode(buf);
+                        ready = true;
+                    } catch (StackOverflowError | Exception e) {
+                        out.println("ENCA " + i + " SKIP " + clean(e));
+                    }
+                    if (ready) {
+                        build(i).encode(buf);
+                        byte[] all = buf.writtenBytes();
+                        out.println("ENCA " + i + " " + vrt.Trace.hex(java.util.Arrays.copyOfRange(all, buf.readerIndex(), all.length)));
+                    }
+                } catch (StackOverflowError | Exception e) {
+                    out.println("ENCA " + i + " ERR " + clean(e));
+                }
             } else if (parts[0].equals("U")) {
                 int i = Integer.parseInt(parts[1]);
                 out.println("BEGIN U " + i); out.flush();
